@@ -326,6 +326,16 @@ int find_int(const Sys& cur, size_t n, size_t k, long& budget, Vec* wit) {
   return unknown ? -1 : 0;
 }
 
+// contains_integer_point() of polyhedra runs MIP branch-and-bound whose depth is not bounded by anything reasonable (see the report:
+// a 3-dimensional slab 2*x0 - 2*x1 + x2 = c over a 2^17 wide box recurses > 10^5 deep): run it under a deterministic weight limit.
+struct WeightLimit {};
+void too_fat() { throw WeightLimit(); }
+typedef Threshold_Watcher<Weightwatch_Traits> Weightwatch;
+template <typename D> int guarded_cip(const D& d) {          // 0 false, 1 true, -1 abandoned
+  try { Weightwatch ww(30000000ULL, too_fat); return d.contains_integer_point() ? 1 : 0; }
+  catch (WeightLimit&) { return -1; }
+}
+
 const char* cc_name(Complexity_Class cc) { return cc == POLYNOMIAL_COMPLEXITY ? "POLYNOMIAL" : cc == SIMPLEX_COMPLEXITY ? "SIMPLEX" : "ANY"; }
 
 // ------------------------------------------------------------------ known findings
@@ -464,10 +474,11 @@ void run_generic(Ctx& c, const std::string& dom, const Flags& F) {
 
   // ---- (3) contains_integer_point
   {
-    bool got = arg.contains_integer_point();
+    int gcip = guarded_cip(arg); bool got = gcip == 1;
     int verdict = 0; Vec wit; long budget = 250;
     for (size_t k = 0; k < model.size(); ++k) { int r = find_int(model[k], n, 0, budget, &wit); if (r == 1) { verdict = 1; break; } if (r < 0) verdict = -1; }
-    c.log << "contains_integer_point() = " << got << ", reference: " << (verdict == 1 ? "yes " + show_pt(wit) : verdict == 0 ? "none" : "undecided") << "\n";
+    c.log << "contains_integer_point() = " << (gcip < 0 ? "(abandoned: weight limit)" : got ? "true" : "false") << ", reference: " << (verdict == 1 ? "yes " + show_pt(wit) : verdict == 0 ? "none" : "undecided") << "\n";
+    if (gcip < 0) { c.tag("cip abandoned (weight limit) " + dom); verdict = -1; }
     if (verdict == 1) c.check(dom + ".cip.true", got, [&] { return "contains_integer_point() is false but " + show_pt(wit) + " is an integer point of " + show_model(model); });
     if (verdict == 0 && got && kf6_class(arg) && vf::kf("KF-C17-6")) c.excluded("KF-C17-6");
     else if (verdict == 0) c.check(dom + ".cip.false", !got, [&] { return "contains_integer_point() is true but the set has no integer point: " + show_model(model); });
